@@ -17,7 +17,7 @@ def tk (used : List Token) : List Tok := used.map Tok.ofToken
 
 theorem ofToken_punct {t : Token} {k : Kind} (hk : t.kind = k) (ok : TokOK t) (hv : k.valued = false) :
     Tok.ofToken t = tP k := by
-  have := ok.2 (by rw [hk]; exact hv)
+  have := ok.2.1 (by rw [hk]; exact hv)
   simp [Tok.ofToken, tP, hk, this]
 
 theorem ofToken_name {t : Token} (hk : t.kind = .name) : Tok.ofToken t = tName t.value := by
